@@ -23,9 +23,10 @@ var c06alphabet = []string{"G", "Gc", "X", "C", "E4", "E5", "Gd", "Gh"}
 
 // validator kinds of a resource
 // "coarse-etag": the entity tag names a generation and stays the same while content and Last-Modified change; the
-// origin validates by date only (it ignores If-None-Match), so a changed representation comes back as a 200 that
+// "both-304-says-expired": the origin's 304 itself carries max-age=0 and a past Expires (the renewal is by the
+// configured default all the same). origin validates by date only (it ignores If-None-Match), so a changed representation comes back as a 200 that
 // carries the stored tag. "both-bare304" / "etag-bare304": the origin's 304 carries no validator header at all.
-var c06kinds = []string{"both", "etag", "lastmod", "none", "weak", "lastmod-rfc850", "lastmod-asctime", "coarse-etag", "both-bare304", "etag-bare304"}
+var c06kinds = []string{"both", "etag", "lastmod", "none", "weak", "lastmod-rfc850", "lastmod-asctime", "coarse-etag", "both-bare304", "etag-bare304", "both-304-says-expired"}
 
 type c06resState struct {
 	kind    string
@@ -41,7 +42,7 @@ type c06world struct {
 
 func c06etag(kind string, res, v int) string {
 	switch kind {
-	case "both", "etag", "both-bare304", "etag-bare304":
+	case "both", "etag", "both-bare304", "etag-bare304", "both-304-says-expired":
 		return rig.ETag(res, v)
 	case "coarse-etag":
 		return rig.ETag(res, 0)
@@ -53,7 +54,7 @@ func c06etag(kind string, res, v int) string {
 
 func c06lastmod(kind string, v int) string {
 	switch kind {
-	case "both", "lastmod", "coarse-etag", "both-bare304":
+	case "both", "lastmod", "coarse-etag", "both-bare304", "both-304-says-expired":
 		return rig.LastMod(v)
 	case "lastmod-rfc850", "lastmod-asctime":
 		// the obsolete but valid date forms an origin may still write
@@ -103,6 +104,10 @@ func (w *c06world) handler(rw http.ResponseWriter, q *http.Request, rec *rig.Ori
 	if notMod {
 		if et != "" && !strings.HasSuffix(kind, "-bare304") {
 			rw.Header().Set("ETag", et)
+		}
+		if kind == "both-304-says-expired" {
+			rw.Header().Set("Cache-Control", "max-age=0")
+			rw.Header().Set("Expires", "Thu, 01 Jan 1998 00:00:00 GMT")
 		}
 		rw.WriteHeader(304)
 		return
@@ -447,7 +452,7 @@ func init() {
 		ID:    "C06",
 		Level: "exploration",
 		Rule: "per resource: an initial GET followed by every sequence up to <depth> over {G, Gc (client If-None-Match/If-Modified-Since or If-Match/If-Unmodified-Since carrying sentinels), Gd (same with RFC 850 dates / weak tag), Gh (client Connection header nominating the conditional field names), X (force-expire the stored entry), C (origin changes content and validators), E4, E5 (origin answers the next request 404 / 500)} plus seeded random sequences up to depth+10, " +
-			"5 fixed histories with repeated revalidations, for each validator kind {ETag+Last-Modified, ETag only, Last-Modified only, none, weak ETag, Last-Modified in RFC 850 form, in asctime form, a coarse ETag that stays the same while content and date change (origin validates by date and answers 200 with the stored tag), origins whose 304 carries no validator header}, both backends, plain (all) and tunnel (every 4th). A sequential model of what the proxy must hold predicts every origin-side request (validators) and client response. Non-trivial = distinct history with at least one revalidation.",
+			"5 fixed histories with repeated revalidations, for each validator kind {ETag+Last-Modified, ETag only, Last-Modified only, none, weak ETag, Last-Modified in RFC 850 form, in asctime form, a coarse ETag that stays the same while content and date change (origin validates by date and answers 200 with the stored tag), origins whose 304 carries no validator header, an origin whose 304 itself says max-age=0 / past Expires}, both backends, plain (all) and tunnel (every 4th). A sequential model of what the proxy must hold predicts every origin-side request (validators) and client response. Non-trivial = distinct history with at least one revalidation.",
 		Assumptions: []string{"entries are made stale through the tag-guarded expiry accessor instead of sleeping; the lifetime logic itself is C03's subject", "when the origin sent no Last-Modified, If-Modified-Since may be absent or the receipt time",
 			"a request reaching the origin although the entry is fresh is not judged here (C03/C04)"},
 		Plan:     c06Plan,
